@@ -63,9 +63,13 @@ struct Node {
 }
 
 fn new_node(n_chains: usize, n_params: usize, init: &[f64]) -> Node {
+    new_node_ty(n_chains, n_params, init, "f32")
+}
+/// `ty == "f64"`: the trackers are constructed from the f64 initial state itself (not from an f32 copy)
+fn new_node_ty(n_chains: usize, n_params: usize, init: &[f64], ty: &str) -> Node {
     let init32: Vec<f32> = init.iter().map(|x| *x as f32).collect();
     Node {
-        trackers: (0..n_chains).map(|_| ChainTracker::new(n_params, &init32)).collect(),
+        trackers: (0..n_chains).map(|_| if ty == "f64" { ChainTracker::new(n_params, init) } else { ChainTracker::new(n_params, &init32) }).collect(),
         multi: MultiChainTracker::new(n_chains, n_params),
         batches: vec![Batch { xs: vec![] }; n_chains],
         last: vec![init.to_vec(); n_chains],
@@ -345,7 +349,7 @@ fn family_history(seed: u64, len: usize, n_chains: usize, n_params: usize, kind:
 
 pub fn run(ctx: &Ctx) {
     let worst = Mutex::new(Worst { mean: 0.0, var: 0.0, rhat_own: 0.0, rhat_multi: 0.0 });
-    ctx.rule("E3 history exploration: ALL update sequences over values {0,1,3} for 2 chains x {1,2} params up to the stated depth (prefix tree, real trackers cloned per node), every oracle checked after EVERY update; plus fixed enumerated long histories (MH-like stay/move sequences, up to 5000 updates, 2..16 chains, 1..8 params, f32/f64/i32/u8, location/scale <= 10). states = distinct histories (reference-model states), transitions = updates applied; non-trivial = every node (each carries count/mean/variance/EMA/R-hat comparisons)");
+    ctx.rule("E3 history exploration: ALL update sequences over values {0,1,3} for 2 chains x {1,2} params up to the stated depth (prefix tree, real trackers cloned per node), every oracle checked after EVERY update; plus fixed enumerated long histories (MH-like stay/move sequences, up to 5000 updates, 2..16 chains, 1..8 params, f32/f64/i32/u8, location/scale <= 10; f64 trackers are built from the f64 initial state, and all sequences over the not-f32-representable values {0.1, 1/3, 0.7} are explored for f64). states = distinct histories (reference-model states), transitions = updates applied; non-trivial = every node (each carries count/mean/variance/EMA/R-hat comparisons)");
     // exhaustive histories
     let alphabet = [0.0, 1.0, 3.0];
     let plans: Vec<(usize, usize, usize)> = if ctx.tier.thorough() { vec![(2, 1, 6), (2, 2, 4), (3, 1, 4)] } else { vec![(2, 1, 4), (2, 2, 3), (3, 1, 3)] };
@@ -360,6 +364,17 @@ pub fn run(ctx: &Ctx) {
             ctx.distinct_bulk(states.iter().cloned());
             ctx.states_bulk(states);
         }
+    }
+    // f64 chains whose values are NOT representable in f32 (0.1, 1/3, 0.7; distinct at f32 resolution), trackers built
+    // from the f64 initial state: a first fed state equal to the initial state is a stay, not a move
+    for init_v in [0.1, 1.0 / 3.0] {
+        let alpha = [0.1, 1.0 / 3.0, 0.7];
+        let root = new_node_ty(2, 1, &[init_v], "f64");
+        let mut states = vec![];
+        dfs(ctx, &worst, &root, &alpha, ctx.tier.pick(3, 4), 2, 1, "f64", &mut states);
+        ctx.outcome("histories over the f64 (not f32-representable) alphabet", states.len() as u64);
+        ctx.distinct_bulk(states.iter().cloned());
+        ctx.states_bulk(states);
     }
     for (n_chains, n_params, depth) in plans {
         for ty in ["f32", "i32"] {
@@ -415,7 +430,7 @@ pub fn run(ctx: &Ctx) {
     jobs.par_iter().enumerate().for_each(|(j, (len, c, p, ty, kind))| {
         let seed = 1000 + j as u64;
         let (init, hist) = family_history(seed, *len, *c, *p, *kind, ty);
-        let mut node = new_node(*c, *p, &init);
+        let mut node = new_node_ty(*c, *p, &init, ty);
         node.case_override = Some(json!({"family_history": {"seed": seed, "len": len, "chains": c, "params": p, "ty": ty, "kind": kind}}));
         for upd in hist.iter() {
             if !apply_ty(ctx, &worst, &mut node, upd, ty) {
@@ -446,7 +461,7 @@ pub fn check_case(ctx: &Ctx, case: &Value) {
         let (seed, len, c, p, kind) = (f["seed"].as_u64().unwrap(), f["len"].as_u64().unwrap() as usize, f["chains"].as_u64().unwrap() as usize, f["params"].as_u64().unwrap() as usize, f["kind"].as_u64().unwrap() as usize);
         let ty = f["ty"].as_str().unwrap_or("f32").to_string();
         let (init, hist) = family_history(seed, len, c, p, kind, &ty);
-        let mut node = new_node(c, p, &init);
+        let mut node = new_node_ty(c, p, &init, &ty);
         node.case_override = Some(case.clone());
         for upd in hist.iter() {
             if !apply_ty(ctx, &worst, &mut node, upd, &ty) {
@@ -463,7 +478,7 @@ pub fn check_case(ctx: &Ctx, case: &Value) {
     if ups.is_empty() {
         return;
     }
-    let mut node = new_node(ups[0].len(), init.len(), &init);
+    let mut node = new_node_ty(ups[0].len(), init.len(), &init, &ty);
     for u in ups.iter() {
         if !apply_ty(ctx, &worst, &mut node, u, &ty) {
             break;
